@@ -225,8 +225,11 @@ func (w *bannerResponseWriter) Write(bs []byte) (int, error) {
 
 // Proxy builds an HTTP handler that proxies to a wrapped handler but injects the given HTML banner into every HTML response.
 func Proxy(ctx context.Context, wrapped http.Handler, bannerHTML, bannerHeight, favIconURL string, metricHandler *metrics.MetricHandler) (http.Handler, error) {
-	mux := http.NewServeMux()
-	mux.HandleFunc("/", func(w http.ResponseWriter, r *http.Request) {
+	// Note that we deliberately do not wrap this in an http.ServeMux: a ServeMux
+	// responds with a redirect to any request whose path is not in canonical form
+	// (e.g. "/a//b" or "/a/../b"), whereas every request must be forwarded to the
+	// wrapped handler unaltered.
+	return http.HandlerFunc(func(w http.ResponseWriter, r *http.Request) {
 		if !isHTMLRequest(r) {
 			wrapped.ServeHTTP(w, r)
 			return
@@ -241,6 +244,5 @@ func Proxy(ctx context.Context, wrapped http.Handler, bannerHTML, bannerHeight, 
 			metricHandler:   metricHandler,
 		}
 		wrapped.ServeHTTP(w, r)
-	})
-	return mux, nil
+	}), nil
 }
